@@ -96,7 +96,8 @@ def run(ctx):
         if rng.random() < 0.15:
             # long multi-line EHLO reply (> 512 octets): still one reply
             ehlo = G.reply(250, [b"srv.example hi"] + [b"X-EXT%d %s" % (j, b"p" * rng.randint(5, 60)) for j in range(rng.choice([20, 60]))] + exts)
-        steps = [("greeting", b"220 ready\r\n"), ("ehlo", ehlo), ("mail", b"250 ok\r\n")]
+        # (a greeting may have several lines like any other reply: the client waits for the whole of it)
+        steps = [("greeting", rng.choice([b"220 ready\r\n"] * 2 + [b"220-first line\r\n220 second line\r\n", b"220-a\r\n220-b\r\n220 c\r\n"])), ("ehlo", ehlo), ("mail", b"250 ok\r\n")]
         steps += [("rcpt%d" % i, rng.choice([b"250 ok\r\n", b"251 fwd\r\n", b"250-a\r\n250 b\r\n"])) for i in range(len(tos))]
         steps += [("data", b"354 go\r\n"), ("eod", b"250 queued\r\n"), ("quit", b"221 bye\r\n")]
         if ref:
